@@ -1,8 +1,8 @@
 (* C16 — the HTML tokenizer (src/html/mod.rs) is lossless and total.
-   For now this file only pins executable sanity checks of the model (RIO.HtmlTok through RIO.C16Run);
-   the statements C16_total / C16_lossless / C16_count / C16_accessors / C16_stable come later. *)
+   This file pins the statements (proofs: RIO.TokLogic, RIO.HtmlTokProofs) and executable sanity checks of
+   the model (RIO.HtmlTok through RIO.C16Run). *)
 Require Import Coq.Strings.String Coq.Strings.Ascii.
-Require Import RIO.Base RIO.TokMonad RIO.HtmlTok RIO.C16Run.
+Require Import RIO.Base RIO.TokMonad RIO.HtmlTok RIO.C16Run RIO.TokLogic RIO.HtmlTokProofs.
 
 Definition b (s : String.string) : list N := map N_of_ascii (list_ascii_of_string s).
 
@@ -77,3 +77,44 @@ Example ex_case :
                [T 3 0 3 [60;97;62] TN (NS [97] false) [AN]; T 2 3 4 [120] (TS [120]) NN [AN]]%N
                (F 0 4 4 [] [])%N) = 0%N.
 Proof. vm_compute. reflexivity. Qed.
+
+(* ======================================================================================== statements *)
+(* the bytes b[i, j) *)
+Definition bytes_between (b : str) (i j : nat) : str := firstn (j - i) (skipn i b).
+
+(* toks is a chain of contiguous spans over b from pos to last: token k reports the span [p_k, p_k+1) with
+   p_0 = pos, its raw bytes are exactly b[p_k, p_k+1), every span lies inside b *)
+Fixpoint spans_chain (b : str) (pos : nat) (toks : list tok_obs) (last : nat) : Prop :=
+  match toks with
+  | [] => pos = last
+  | t :: r => exists e, pos <= e /\ e <= length b /\ o_rs t = N.of_nat pos /\ o_re t = N.of_nat e
+                        /\ o_raw t = bytes_between b pos e /\ spans_chain b e r last
+  end.
+
+(* T1 (conditional form): whenever the driver returns normally - for every lowercase oracle, context tag, fuel and
+   input - the raw bytes of the tokens in order, followed by the remainder (raw() of the ErrorToken ++ buffered()),
+   are the input; the spans are contiguous from 0, inside the input, and the ErrorToken's span and buffered()
+   are the last two pieces. *)
+Theorem C16_lossless :
+  forall (lower : str -> str) (ctx : str) (fuel : nat) (b : str) (toks : list tok_obs) (fin : final_obs),
+    tokenize_all lower ctx fuel b = Ok (toks, fin) ->
+    concat (map o_raw toks) ++ f_err_raw fin ++ f_rest fin = b
+    /\ exists p q, spans_chain b 0 toks p /\ p <= q /\ q <= length b
+         /\ f_ers fin = N.of_nat p /\ f_ere fin = N.of_nat q
+         /\ f_err_raw fin = bytes_between b p q /\ f_rest fin = skipn q b.
+Proof. exact lossless. Qed.
+
+(* T5: a call of next that finished without observing EOF (err = false; and without a failed check or fuel
+   exhaustion) returns the same token and leaves the same state when more input is appended.  The accessors
+   raw / text / tag_name / tag_attr are stable in the same sense (stable_raw, stable_text, stable_tag_name,
+   stable_tag_attr in RIO.HtmlTokProofs); buffered() is not, by nature. *)
+Theorem C16_stable :
+  forall (lower : str -> str) (d1 d2 : list N) (s : st),
+    err (snd (next lower d1 s)) = false ->
+    oof (snd (next lower d1 s)) = false ->
+    panic (snd (next lower d1 s)) = None ->
+    next lower (d1 ++ d2) s = next lower d1 s.
+Proof. exact next_stable. Qed.
+
+Print Assumptions C16_lossless.
+Print Assumptions C16_stable.
